@@ -1,6 +1,13 @@
 (* Case evaluator for the C16 correspondence shards. *)
 From GL Require Import Common.Bytes Text.Quote Text.StrLit Text.NumRead Text.NumText Text.Date.
 
+(* a literal inside a chunk that holds several: an unsigned numeral, possibly under a unary minus
+   (which the compiler folds into the constant), or a string literal *)
+Inductive ctxlit := XNum (neg : bool) (text : bytes) | XStr (src : bytes).
+(* what the chunk returned for it: the number x, whether it is the negative zero (x = 0 and
+   1/x = -inf), tostring(x); or the string *)
+Inductive ctxobs := ONum (x : fval) (negzero : bool) (str : bytes) | OStr (v : bytes) | OBad.
+
 Inductive case :=
 (* string.format('%q', s) = q; loadstring('return '..q)() = back (None: error / not a string) *)
 | CQuote (s q : bytes) (back : option bytes)
@@ -24,7 +31,10 @@ Inductive case :=
 (* os.time(table) *)
 | CTime (tbl : dtable) (obs : Z)
 (* os.date('!'..fmt, t) *)
-| CStrf (t : Z) (fmt : bytes) (obs : bytes).
+| CStrf (t : Z) (fmt : bytes) (obs : bytes)
+(* `local v1, .., vn = L1, .., Ln  return <v, 1/v, tostring(v) for a numeral | v for a string>...`:
+   all literals in ONE function, so they share its constant table; None: the chunk failed *)
+| CCtx (lits : list ctxlit) (obs : option (list ctxobs)).
 
 Definition obytes_eqb := opt_eqb beqb.
 Definition ofval_eqb := opt_eqb fval_eqb.
@@ -51,6 +61,49 @@ Definition date_fields (tb : dtable) : list Z :=
 Definition date_isdst (tb : dtable) : bool :=
   match dget tb FIsdst with Some (DBool b) => b | _ => true end.
 
+(* a literal denotes the same value whatever other literals stand in the same function *)
+Definition is_zero_f (x : fval) : bool := match x with Fin m _ => m =? 0 | _ => false end.
+
+Definition ctx_num_ok (x : fval) (neg : bool) (o : ctxobs) : bool :=
+  let x' := if neg then fneg x else x in
+  match o with
+  | ONum y nz str =>
+    fval_eqb x' y && Bool.eqb nz (neg && is_zero_f x) &&
+    (if is_integer x' then beqb (lnumber_string (fun _ => []) x') str
+     else if is_finite x' then ofval_eqb (parse_number round_dec str) (Some x') else true)
+  | _ => false
+  end.
+
+Definition ctx_lit_valid (via_lexer : bool) (l : ctxlit) : bool :=
+  match l with
+  | XNum _ text =>
+    if via_lexer then match lex_numeral text with LNVal _ _ => true | _ => false end
+    else match numeral_kind text with KNone => false | _ => true end
+  | XStr src => match lex_string src with Some _ => true | None => false end
+  end.
+
+Definition ctx_lit_ok (via_lexer : bool) (l : ctxlit) (o : ctxobs) : bool :=
+  match l with
+  | XNum neg text =>
+    if via_lexer then
+      match lex_numeral_f round_dec text with LFVal x => ctx_num_ok x neg o | _ => false end
+    else match parse_number round_dec text with Some x => ctx_num_ok x neg o | None => false end
+  | XStr src =>
+    match lex_string src, o with Some v, OStr w => beqb v w | _, _ => false end
+  end.
+
+Fixpoint ctx_all_ok (via_lexer : bool) (ls : list ctxlit) (os : list ctxobs) : bool :=
+  match ls, os with
+  | [], [] => true
+  | l :: ls', o :: os' => ctx_lit_ok via_lexer l o && ctx_all_ok via_lexer ls' os'
+  | _, _ => false
+  end.
+
+Definition ctx_check (via_lexer : bool) (ls : list ctxlit) (obs : option (list ctxobs)) : bool :=
+  if forallb (ctx_lit_valid via_lexer) ls then
+    match obs with Some os => ctx_all_ok via_lexer ls os | None => false end
+  else match obs with None => true | Some _ => false end.
+
 Definition check_impl (c : case) : bool :=
   match c with
   | CQuote s q back => beqb (go_lua_quote s) q && obytes_eqb (lex_string q) back
@@ -70,6 +123,7 @@ Definition check_impl (c : case) : bool :=
     (os_time unix_of_civil tb =? back)
   | CTime tbl obs => os_time unix_of_civil tbl =? obs
   | CStrf t fmt obs => beqb (strftime (civil_of_unix t) fmt) obs
+  | CCtx lits obs => ctx_check true lits obs
   end.
 
 (* ---------- the property on the observed behaviour ---------- *)
@@ -109,4 +163,5 @@ Definition check_spec (c : case) : bool :=
     zlist_eqb flds [c_year cv; c_month cv; c_day cv; c_hour cv; c_min cv; c_sec cv; c_wday cv + 1; c_yday cv]
   | CTime _ _ => true
   | CStrf t fmt obs => beqb obs (flat_map (render_piece (civil_of_unix t)) (parse_fmt fmt))
+  | CCtx lits obs => ctx_check false lits obs   (* the grammar's value, literal by literal *)
   end.
